@@ -145,6 +145,9 @@ def counterWhy (incs : List Nat) (final : Nat) (gets : List Nat) : String :=
 /-- Mixed workload: every value a reader saw was written by somebody (or is the initial one). -/
 def readersOk (written : List Nat) (gets : List Nat) : Bool := gets.all (fun g => written.contains g)
 
+/-- Wide-value workload: the written values are the uniform generations `0..n`; a torn value is none of them. -/
+def wideOk (n : Nat) (gets : List Nat) : Bool := readersOk (List.range (n + 1)) gets
+
 /-- At every quiescent point (no call in progress) `Get` returns what the store holds (0: absent). -/
 def quiescentOk (gets raws : List Nat) : Bool := gets == raws
 
